@@ -4,6 +4,7 @@ package main
 
 import (
 	"fmt"
+	"go/constant"
 	"go/types"
 	"sort"
 	"strings"
@@ -164,8 +165,39 @@ func (m *Model) RunBuiltinRules(s *Sink, ruleArg, ruleUTF, ruleSib string) {
 				}
 			}
 		}
+		if !ok {
+			// or both are thin wrappers of one core H: first/last passes the constant where at passes its index argument
+			atFn := byName["at"]
+			for _, b := range fn.Blocks {
+				for _, in := range b.Instrs {
+					c, isC := in.(*ssa.Call)
+					if !isC || c.Call.StaticCallee() == nil || !inPkg(c.Call.StaticCallee(), "evaluator") {
+						continue
+					}
+					h := c.Call.StaticCallee()
+					for i, a := range c.Call.Args {
+						k, isK := a.(*ssa.Const)
+						if !isK || k.Value == nil || k.Value.Kind() != constant.Int || k.Int64() != want {
+							continue
+						}
+						for _, ac := range callsToFn(atFn, h) {
+							if i >= len(ac.Call.Args) {
+								continue
+							}
+							v := ac.Call.Args[i]
+							if cv, isCv := v.(*ssa.Convert); isCv {
+								v = cv.X
+							}
+							if strings.HasSuffix(fieldPathOf(v), ".Value") {
+								ok = true // at's own index argument goes to the same parameter
+							}
+						}
+					}
+				}
+			}
+		}
 		if ok {
-			s.OK(ruleSib, key, m.Pos(fn.Pos()), "delegates to at with the constant %d", want)
+			s.OK(ruleSib, key, m.Pos(fn.Pos()), "delegates to at (or to the core at itself delegates to) with the constant %d", want)
 		} else {
 			s.Violation(ruleSib, key, m.Pos(fn.Pos()), "%s() does not delegate to at(%d)", name, want)
 		}
